@@ -432,6 +432,8 @@ class Interp(object):
                 elif isinstance(tg, ast.Subscript):
                     o = self.ev(tg.value, env)
                     k = self.ev(tg.slice, env)
+                    if type(o) is dict:
+                        o = _shadow_for_write(o)
                     if isinstance(o, SymDict):
                         o.s_pop(k)
                     elif has_sym(k):
@@ -521,6 +523,8 @@ class Interp(object):
         raise Unsupported("assignment target %s" % t.__name__)
 
     def setitem(self, obj, key, val):
+        if type(obj) is dict:
+            obj = _shadow_for_write(obj)
         if isinstance(obj, SymDict):
             obj.s_set(key, val)
             return
@@ -536,6 +540,7 @@ class Interp(object):
 
     # ------------------------------------------------------------------
     def cond(self, v):
+        v = _sh(v)
         t = truth(v) if not isinstance(v, bool) else v
         if t is True or t is False:
             return t
@@ -543,6 +548,7 @@ class Interp(object):
 
     def iterate(self, v):
         """materialise an iterable as a list"""
+        v = _sh(v)
         if isinstance(v, (list, tuple)):
             return list(v)
         if isinstance(v, EagerGen):
@@ -777,6 +783,9 @@ class Interp(object):
 
     # ------------------------------------------------------------------
     def getattr_(self, obj, name):
+        obj = _sh(obj)
+        if type(obj) is dict and name in ("update", "setdefault", "pop", "clear", "popitem", "__setitem__", "__delitem__"):
+            obj = _shadow_for_write(obj)
         if isinstance(obj, (SStr, SBytes, SByteArray, SymDict, SymSet, EagerGen)):
             if isinstance(obj, SymDict) and name in ("pairs", "nsym"):
                 raise AttributeError(name)
@@ -797,6 +806,7 @@ class Interp(object):
         return getattr(obj, name)
 
     def getitem(self, obj, key):
+        obj = _sh(obj)
         if isinstance(obj, (SStr, SBytes, SByteArray)):
             if isinstance(key, SInt):
                 raise Unsupported("symbolic index")
@@ -820,12 +830,28 @@ class Interp(object):
         return obj[key]
 
     # ------------------------------------------------------------------
+    def _user_eq(self, a, b):
+        """a == b through a Python-level __eq__ of a's class (records holding symbolic fields)"""
+        if isinstance(a, (str, bytes, int, float, bool, type(None), list, tuple, dict, set, frozenset)) or isinstance(a, V.SYM_TYPES) \
+                or isinstance(a, (SymDict, SymSet, EagerGen, RX.SMatch)):
+            return None
+        eq = _class_attr(type(a), "__eq__")
+        if isinstance(eq, types.FunctionType) and (has_sym(a) or has_sym(b) or _fields_sym(a) or _fields_sym(b)):
+            r = self.call_pyfunc(eq, (a, b), {})
+            if r is NotImplemented:
+                return None
+            return truth(r) if not isinstance(r, bool) else r
+        return None
+
     def compare(self, op, a, b):
         t = type(op)
-        if t is ast.Eq:
-            return v_eq(a, b)
-        if t is ast.NotEq:
-            return z_not(v_eq(a, b))
+        if t is ast.Eq or t is ast.NotEq:
+            r = self._user_eq(a, b)
+            if r is None:
+                r = self._user_eq(b, a)
+            if r is None:
+                r = v_eq(a, b)
+            return r if t is ast.Eq else z_not(r)
         if t is ast.Is:
             return a is b
         if t is ast.IsNot:
@@ -845,6 +871,7 @@ class Interp(object):
         raise Unsupported("comparison")
 
     def contains(self, coll, item):
+        coll = _sh(coll)
         kc = kind_of(coll)
         if kc is not None:
             ki = kind_of(item)
@@ -918,6 +945,49 @@ _NATIVE_BINOPS = {
     ast.BitAnd: operator.and_, ast.BitOr: operator.or_, ast.BitXor: operator.xor,
     ast.LShift: operator.lshift, ast.RShift: operator.rshift,
 }
+
+
+def _sh(obj):
+    """per-path shadow of a plain dict that interpreted code has written to (module-level caches
+    etc. are never mutated natively: writes go to a path-local SymDict copy)"""
+    if type(obj) is dict:
+        sh = core.CUR.shadow
+        if sh:
+            return sh.get(id(obj), (None, obj))[1]
+    return obj
+
+
+def _shadow_for_write(obj):
+    st = core.CUR
+    ent = st.shadow.get(id(obj))
+    if ent is None:
+        d = SymDict()
+        for k, v in obj.items():
+            d.pairs.append((k, v))
+            dict.__setitem__(d, k, v)
+        ent = (obj, d)
+        st.shadow[id(obj)] = ent
+    return ent[1]
+
+
+def _fields_sym(o):
+    """does a plain instance hold symbolic values in its slots / __dict__ ?"""
+    sl = getattr(type(o), "__slots__", None)
+    if sl:
+        if isinstance(sl, str):
+            sl = (sl,)
+        for n in sl:
+            try:
+                if has_sym(getattr(o, n)):
+                    return True
+            except AttributeError:
+                pass
+    d = getattr(o, "__dict__", None)
+    if d:
+        for v in d.values():
+            if has_sym(v):
+                return True
+    return False
 
 
 def _hashable(f):
